@@ -110,7 +110,7 @@ func Low2Zero(r *run.Rng) float32 {
 // the reference codec: it is k/120, k/15120 with a stable quotient, or has two
 // zero low bits.
 func StableZTO(k int) bool {
-	f := float32(float64(k) / 15120)
+	f := float32(k) / 15120 // float32 division: correctly rounded quotient
 	p := f * 15120
 	u := uint32(p)
 	return float32(u) == p && int(u) == k
